@@ -502,7 +502,9 @@ class DAGRunConcurrentManager(DAGRunManagerLike):
 
             if dag.is_oneof and self.__has_subgraph_error(dag):
                 logger.debug('An error has been found in the %s', dag)
-                self._stop_coro_tasks(*local_tasks)
+
+                # The nodes that have been started are not cancelled: a node can be shared with another subgraph
+                # (e.g. with the next OneOf subgraph), which does not start the node again and waits for its result.
 
                 # We must unlock descendants because the next OneOf subgraph should start the process.
                 # Otherwise, the entire subgraph will be locked.
